@@ -7,6 +7,8 @@ import (
 	"runtime"
 	"sort"
 	"strings"
+	"sync"
+	"sync/atomic"
 	"testing"
 
 	"p9verif/evid"
@@ -295,6 +297,122 @@ func runListCase(c listCase, st *listStats) *fail {
 	return nil
 }
 
+// runConcListCase: several handles list the same (never listed before)
+// directory at the same moment; every listing must be complete and every
+// listed QID must be the one Walk and GetAttr report.
+func runConcListCase(c listCase, listers int) *fail {
+	att, sub, names, cleanup, f := buildFS(c)
+	defer cleanup()
+	if f != nil {
+		return f
+	}
+	var root p9.File
+	if c.Via == "server" {
+		cl, closeFn, err := dialPipe(p9.NewServer(att), p9.WithMessageSize(c.Msize))
+		if err != nil {
+			return failf("harness-dial", "HARNESS-ERROR %v", err)
+		}
+		defer closeFn()
+		if root, err = cl.Attach(""); err != nil {
+			return failf("harness-attach", "HARNESS-ERROR %v", err)
+		}
+	} else {
+		var err error
+		if root, err = att.Attach(); err != nil {
+			return failf("harness-attach", "HARNESS-ERROR %v", err)
+		}
+	}
+	defer runtime.KeepAlive(root)
+	dirw := root
+	if len(sub) > 0 {
+		_, d, err := root.Walk(sub)
+		if err != nil {
+			return failf("harness-walk", "HARNESS-ERROR walk %v: %v", sub, err)
+		}
+		dirw = d
+		defer runtime.KeepAlive(d)
+	}
+	what := fmt.Sprintf("%s with %d entries, %s, %d concurrent first listings", c.FS, len(names), c.Via, listers)
+	handles := make([]p9.File, listers)
+	for i := range handles {
+		_, l, err := dirw.Walk(nil)
+		if err != nil {
+			return failf("harness-clone", "HARNESS-ERROR %v", err)
+		}
+		if _, _, err := l.Open(p9.ReadOnly); err != nil {
+			return failf("harness-open", "HARNESS-ERROR %v", err)
+		}
+		handles[i] = l
+		defer l.Close()
+	}
+	results := make([][]p9.Dirent, listers)
+	errs := make([]error, listers)
+	var arrived int64
+	var wg sync.WaitGroup
+	for i := range handles {
+		wg.Add(1)
+		go func(i int) {
+			defer wg.Done()
+			atomic.AddInt64(&arrived, 1)
+			for spins := 0; atomic.LoadInt64(&arrived) < int64(listers); spins++ {
+				if spins > 100 {
+					runtime.Gosched()
+				}
+			}
+			offset := uint64(0)
+			for iter := 0; iter < len(names)+10; iter++ {
+				ents, err := handles[i].Readdir(offset, c.Count)
+				if err != nil {
+					errs[i] = err
+					return
+				}
+				if len(ents) == 0 {
+					return
+				}
+				results[i] = append(results[i], ents...)
+				offset = ents[len(ents)-1].Offset
+			}
+		}(i)
+	}
+	wg.Wait()
+	truth := map[string]p9.QID{}
+	for i := range results {
+		if errs[i] != nil {
+			return failf("readdir-error:"+c.FS, "%s: listing %d failed: %v", what, i, errs[i])
+		}
+		if len(results[i]) != len(names) {
+			return failf("listing-incomplete:"+c.FS+":concurrent", "%s: listing %d has %d entries", what, i, len(results[i]))
+		}
+		step := 1
+		if len(results[i]) > 500 {
+			step = len(results[i]) / 500
+		}
+		for k, e := range results[i] {
+			q, ok := truth[e.Name]
+			if !ok {
+				if k%step != 0 && i > 0 {
+					continue
+				}
+				qs, f2, err := dirw.Walk([]string{e.Name})
+				if err != nil || len(qs) != 1 {
+					return failf("walk-to-listed-entry-failed:"+c.FS, "%s: Walk(%q): %v", what, e.Name, err)
+				}
+				gq, _, _, err := f2.GetAttr(p9.AttrMaskAll)
+				f2.Close()
+				if err != nil || gq != qs[0] {
+					return failf("qid-disagreement:"+c.FS+":concurrent", "%s: Walk(%q) returns %v, GetAttr %v (%v)", what, e.Name, qs[0], gq, err)
+				}
+				q = qs[0]
+				truth[e.Name] = q
+			}
+			if e.QID != q {
+				return failf("qid-disagreement:"+c.FS+":concurrent", "%s: listing %d shows entry %q with QID %v, Walk and GetAttr report %v", what, i, e.Name, e.QID, q)
+			}
+		}
+	}
+	return nil
+}
+
 func genListCase(rt *rapid.T, maxN int) listCase {
 	c := listCase{FS: rapid.SampledFrom([]string{"localfs", "localfs", "staticfs", "composefs", "composefs-nested", "composefs-mount", "composefs-static-mount"}).Draw(rt, "fs"),
 		Via: rapid.SampledFrom([]string{"direct", "server", "server"}).Draw(rt, "via"), Seed: rapid.Uint64Range(1, 1<<40).Draw(rt, "seed")}
@@ -334,6 +452,7 @@ func genListCase(rt *rapid.T, maxN int) listCase {
 func init() {
 	replayRegistrars = append(replayRegistrars, func() {
 		registerReplay("C19/listings", func(c listCase) *fail { return runListCase(c, nil) })
+		registerReplay("C19/concurrent-listings", func(c listCase) *fail { return runConcListCase(c, 4) })
 	})
 }
 
@@ -365,6 +484,26 @@ func TestC19(t *testing.T) {
 			}
 		}
 		h.Exhaustive("6 file systems x sizes {0,1,2,3,10,100} x {direct, server} x 4 page sizes")
+	}
+	// concurrent first listings of one directory (the QID tables behind a mount are cold)
+	for rep := 0; rep < env.Pick(16, 160)/env.NShards+1; rep++ {
+		for _, fsk := range []string{"composefs-mount", "composefs-static-mount", "composefs", "localfs"} {
+			for _, via := range []string{"direct", "server"} {
+				c := listCase{FS: fsk, N: 1500, NameLen: 6, Via: via, Count: 1 << 20, Msize: 1 << 20, Seed: uint64(100 + rep*16 + env.Shard)}
+				if fsk != "composefs-mount" && fsk != "localfs" {
+					c.N = 300
+				}
+				f := runConcListCase(c, 4)
+				h.Case(evid.HashJSON(c), true, "concurrent-first-listings:"+fsk)
+				if f != nil && strings.HasPrefix(f.Sig, "harness-") {
+					t.Errorf("HARNESS-ERROR %s", f.Msg)
+					continue
+				}
+				if h.report("concurrent-listings", f, c) {
+					return
+				}
+			}
+		}
 	}
 	rapidCases(h, "listings", env.PerShard(env.Pick(1600, 16000)), func(rt *rapid.T) listCase {
 		return genListCase(rt, env.Pick(1000, 5000))
